@@ -15,7 +15,9 @@ running; `s` has an empty evaluation stack and no pending output; its frame stac
 frames `stk` of the current activation on top of — at top level (`K.ret = none`) nothing, with
 `σ.locals = none`; inside a routine call (`K.ret = some (ret, rest)`) the call frame holding
 exactly `σ.locals` with return address `ret`, on top of the caller's frames `rest`;
-`σ.routines` is the script's routine table `K.routines`; and globals, constants (macros), lights,
+`σ.routines` is the script's routine table `K.routines`; the unit-mode register holds a unit mode
+(an invariant of every run from the initial state: the code of `cycle` loops tests that register);
+and globals, constants (macros), lights,
 the trace of events (device commands, delays, output), default colour, matrix, random draws and
 EVERY register except `result` are EQUAL.  `result` is the generated code's scratch register
 (conditions, printed values, `get` names, arguments and returned values pass through it); the
@@ -29,8 +31,12 @@ The fragment (`Sim.FragStmt` / `FragBlock` / `FragOperand(s)` in `Proofs/SimStmt
 * `actAll`, `setDefault`, `get`, `stage`, `action k ops` with operands `light`/`group`/`location`
   (name as string or variable), `zone`, `matrixInline`, `matrixBlock` with ANY body of the fragment;
 * `ite` with or without `else`, nested to any depth;
-* `repeat_ (.count n)`, `repeat_ (.while_ c)`, `repeat_ .forever`, nested to any depth, with
-  `brk` anywhere in their bodies (inside `ite`, inside a matrix body, …);
+* `repeat_ (.count n)`, `repeat_ (.while_ c)`, `repeat_ .forever`, and the index-variable forms
+  `repeat_ (.range v a b)` (`repeat with v from a to b`), `repeat_ (.interp n v a b)`
+  (`repeat n with v from a to b`), `repeat_ (.cycle n v start)` (`repeat n with v cycle [start]`)
+  with operands that are value positions of the fragment, nested to any depth, with `brk` anywhere
+  in their bodies (inside `ite`, inside a matrix body, …); the body may read and ASSIGN the index
+  variable, and the variable may be read after the loop (`Sem` was changed for this, see below);
 * `call f ps as` as a statement, of a routine of the script or a built-in, with simple arguments
   (literal, variable, register other than `result`) and distinct parameter names — any depth of
   nesting and recursion (the induction is on the fuel of `Sem`, not on the program); `ret v`
@@ -39,8 +45,18 @@ The fragment (`Sim.FragStmt` / `FragBlock` / `FragOperand(s)` in `Proofs/SimStmt
   followed by `END`, sits at the address the image's routine table gives (as the loader lays
   routines out), and no other name is in the image's table.
 Not covered: routine DEFINITIONS inside the block (the loader's relocation); calls in value
-positions (`[f x]`, `{… f(x) …}`); the `repeat` forms with an index variable or over
-lights/groups/locations.
+positions (`[f x]`, `{… f(x) …}`); the `repeat` forms over lights/groups/locations.
+
+`Sem` and the index variable (changed together with this extension; the statements of the theorems
+are unchanged, their meaning follows `Sem`): the index variable of the `with` forms is an ordinary
+variable, as on the machine — the operands are evaluated once, in the order of the generated code;
+the variable is given its first value whatever the count (a count of 0 or a negative count makes
+no pass but still assigns it); after every pass that runs to its end the increment is ADDED to what
+the variable then holds (`Sem.execPasses`), so after the loop it is one increment past its last
+value, `break` leaves it as it is, and an assignment in the body carries over to the next pass
+(the number of passes is not affected).  Before, `Sem` bound precomputed values pass by pass and
+assigned nothing without a pass — which the machine does not do; `harness/c04.py` reads the
+variable after loops of every form against the real implementation.
 
 The full statement (`gen_sim`, DESIGN §6 C01), of which the theorems below are the part proved:
 
@@ -61,9 +77,8 @@ What is missing for the full statement:
 * calls in value positions: `Sem.evalRv`/`evalExpr` with a state-changing call, the value coming
   back in `result` (`RetPost` would have to relate `σ'.result` to the register), and
   `C02_postfix_eval` for expressions containing calls;
-* the index-variable and iterator forms of `repeat` (`range`, `interp`, `cycle`, `all`, `groups`,
-  `locations`, `iter`): the arithmetic of `Sem.execLoop`'s `series` against the generated
-  increment code, and the discovery instructions with names on the evaluation stack.
+* the iterator forms of `repeat` (`all`, `groups`, `locations`, `iter`): the discovery
+  instructions with names on the evaluation stack (the relation `Sim` has an empty stack).
 Restrictions of the fragment that are forced by the MODEL (source semantics and machine disagree
 outside them; concrete scripts are at the end of this file):
 * `Sem` does not model the `result` register, the generated code uses it as scratch: a script
@@ -276,7 +291,7 @@ theorem C01_once_each_in_order (img : Image) (R : List (String × Sem.Routine)) 
 /-- the initial states of `Sem.run` and of the machine are related -/
 theorem Sim.init (lights : List Light) (rts : List (String × Sem.Routine)) :
     Sim ⟨none, rts⟩ [] { vm := Vm.init lights, routines := rts } (Vm.init lights) :=
-  ⟨rfl, rfl, LoopsOnly.nil, rfl, rfl, ⟨rfl, rfl⟩, rfl, rfl, rfl, rfl, rfl, rfl, rfl, rfl, fun _ _ => rfl⟩
+  ⟨rfl, rfl, LoopsOnly.nil, rfl, rfl, ⟨rfl, rfl⟩, rfl, ⟨.logical, rfl⟩, rfl, rfl, rfl, rfl, rfl, rfl, rfl, fun _ _ => rfl⟩
 
 /-- **whole scripts.**  A script of the fragment, compiled by `Gen.genProgram` and placed at
 address 0 of an image that ends with it: if the source-level run (`Sem.run`) ends normally, the
@@ -753,7 +768,7 @@ example : ∃ k, (run callImg k { Vm.init [] with pc := 52 }).trace =
     simpa [callImg, hl] using this
   have hsim : Sim ⟨none, callRoutines⟩ [] { vm := Vm.init [], routines := callRoutines }
       { Vm.init [] with pc := 52 } :=
-    ⟨rfl, rfl, LoopsOnly.nil, rfl, rfl, ⟨rfl, rfl⟩, rfl, rfl, rfl, rfl, rfl, rfl, rfl, rfl, fun _ _ => rfl⟩
+    ⟨rfl, rfl, LoopsOnly.nil, rfl, rfl, ⟨rfl, rfl⟩, rfl, ⟨.logical, rfl⟩, rfl, rfl, rfl, rfl, rfl, rfl, rfl, fun _ _ => rfl⟩
   obtain ⟨k, hk, _⟩ := C01_once_each_in_order callImg callRoutines callImg_routines mainBlock
     mainBlock_frag mainCode mainBlock_code 200 _ _ _ 52 hsim rfl hc (eq_of_fst mainBlock_sem)
   exact ⟨k, hk⟩
@@ -766,6 +781,95 @@ example : (Vm.finish (Vm.run callImg 1000 (Vm.init []))).trace =
 example : (Sem.run 200 wholeScript []).2.vm.trace.reverse =
     [.out (.int 2), .out (.int 1), .out (.int 1), .newline, .out (.int 2),
      .out (.int 1), .out (.int 1), .newline, .out (.int 1), .newline] := by decide +kernel
+
+/-! ### fourth script: the index-variable forms of `repeat` — a descending range left by `break`,
+interpolation with a count of 0 (no pass, the variable is still assigned), `cycle` in raw units;
+the index variables are READ after their loops
+
+```
+repeat with i from 3 to 1 { if {i < 2} { break }  print i }   print i
+repeat 0 with y from 7 to 9 { print y }   print y
+units raw
+repeat 2 with h cycle 100 { print h }   print h
+``` -/
+
+def c01Script3 : Block := Block.ofList [
+  .repeat_ (.range "i" (.lit (.int 3)) (.lit (.int 1)))
+    (Block.ofList [.ite (.expr (.bin .lt (.var "i") (.lit (.int 2)))) (Block.ofList [.brk]) none,
+      .print (.var "i")]),
+  .print (.var "i"),
+  .repeat_ (.interp (.lit (.int 0)) "y" (.lit (.int 7)) (.lit (.int 9))) (Block.ofList [.print (.var "y")]),
+  .print (.var "y"),
+  .units .raw,
+  .repeat_ (.cycle (.lit (.int 2)) "h" (some (.lit (.int 100)))) (Block.ofList [.print (.var "h")]),
+  .print (.var "h")]
+
+/-- what `Gen.genProgram` makes of it (136 instructions) -/
+def c01Code3 : List Instr := [
+  .loop, .moveq (.int 3) (.loopVar .first), .moveq (.int 1) (.loopVar .last),
+  .move (.loopVar .first) (.var "i"), .push (.loopVar .last), .push (.loopVar .first), .op .sub,
+  .pop (.loopVar .counter), .push (.loopVar .counter), .pushq (.int 0), .op .lt, .pop (.reg .result),
+  .jump .ifFalse 7, .push (.loopVar .counter), .pushq (.int (-1)), .op .mul, .pop (.loopVar .counter),
+  .moveq (.int (-1)) (.loopVar .incr), .jump .always 2, .moveq (.int 1) (.loopVar .incr),
+  .push (.loopVar .counter), .pushq (.int 1), .op .add, .pop (.loopVar .counter),
+  .push (.loopVar .counter), .pushq (.int 0), .op .gt, .pop (.reg .result), .jump .ifFalse 19,
+  .push (.var "i"), .pushq (.int 2), .op .lt, .pop (.reg .result), .jump .ifFalse 2, .jump .always 13,
+  .move (.var "i") (.reg .result), .out .register (.reg .result), .out .print (.lit .none),
+  .push (.loopVar .counter), .pushq (.int 1), .op .sub, .pop (.loopVar .counter), .push (.var "i"),
+  .push (.loopVar .incr), .op .add, .pop (.var "i"), .jump .always (-22), .endLoop,
+  .move (.var "i") (.reg .result), .out .register (.reg .result), .out .print (.lit .none), .loop,
+  .moveq (.int 0) (.loopVar .counter), .moveq (.int 7) (.loopVar .first), .moveq (.int 9) (.loopVar .last),
+  .move (.loopVar .first) (.var "y"), .push (.loopVar .counter), .pushq (.int 1), .op .noteq,
+  .pop (.reg .result), .jump .ifFalse 10, .push (.loopVar .last), .push (.loopVar .first), .op .sub,
+  .push (.loopVar .counter), .pushq (.int 1), .op .sub, .op .div, .pop (.loopVar .incr), .jump .always 2,
+  .moveq (.int 0) (.loopVar .incr), .push (.loopVar .counter), .pushq (.int 0), .op .gt,
+  .pop (.reg .result), .jump .ifFalse 13, .move (.var "y") (.reg .result), .out .register (.reg .result),
+  .out .print (.lit .none), .push (.loopVar .counter), .pushq (.int 1), .op .sub, .pop (.loopVar .counter),
+  .push (.var "y"), .push (.loopVar .incr), .op .add, .pop (.var "y"), .jump .always (-16), .endLoop,
+  .move (.var "y") (.reg .result), .out .register (.reg .result), .out .print (.lit .none),
+  .moveq (.mode .raw) (.reg .unitMode), .loop, .moveq (.int 2) (.loopVar .counter),
+  .moveq (.int 100) (.loopVar .first), .move (.loopVar .first) (.var "h"), .push (.loopVar .counter),
+  .pushq (.int 0), .op .eq, .pop (.reg .result), .jump .ifFalse 3, .moveq (.int 0) (.loopVar .incr),
+  .jump .always 12, .push (.reg .unitMode), .pushq (.mode .raw), .op .eq, .pop (.reg .result),
+  .jump .ifFalse 3, .pushq (.int 65536), .jump .always 2, .pushq (.int 360), .push (.loopVar .counter),
+  .op .div, .pop (.loopVar .incr), .push (.loopVar .counter), .pushq (.int 0), .op .gt,
+  .pop (.reg .result), .jump .ifFalse 13, .move (.var "h") (.reg .result), .out .register (.reg .result),
+  .out .print (.lit .none), .push (.loopVar .counter), .pushq (.int 1), .op .sub, .pop (.loopVar .counter),
+  .push (.var "h"), .push (.loopVar .incr), .op .add, .pop (.var "h"), .jump .always (-16), .endLoop,
+  .move (.var "h") (.reg .result), .out .register (.reg .result), .out .print (.lit .none)]
+
+theorem c01Script3_frag : FragBlock c01Script3 := by
+  simp only [c01Script3, Block.ofList, FragBlock, FragStmt, RvOK, LoopHdrOK, WithOK]
+  refine ⟨?_, ?_, ?_, ?_, ?_, ?_, ?_, ?_⟩
+  all_goals first
+    | trivial
+    | decide
+    | (repeat' constructor) <;> first | trivial | decide | nofun
+
+set_option maxRecDepth 8000 in
+theorem c01Script3_code : Gen.genProgram c01Script3 = some c01Code3 := by
+  simp [Gen.genProgram, c01Script3, Block.ofList, genBlock, genStmt, genRv, genExpr, genIf, genLoop,
+    assembleLoop, patchBreaks_eq, patchRec, ins, counterTest, testOp, loopPost, counter, result, pushLit,
+    indexVarRange, cycleVarRange, calcCounter, calcIncr, incCounter, c01Code3]
+
+theorem c01Script3_sem : (Sem.run 400 c01Script3 []).1 = .normal := by decide +kernel
+
+/-- `C01_gen_sim_loaded` applied: the loaded, compiled script halts with the source-level trace -/
+example : ∃ k, (run (Loader.load c01Code3) k (Vm.init [])).status = .halted ∧
+    (Vm.finish (run (Loader.load c01Code3) k (Vm.init []))).trace =
+      .flush :: (Sem.run 400 c01Script3 []).2.vm.trace :=
+  C01_gen_sim_loaded c01Script3 c01Script3_frag c01Code3 c01Script3_code 400 []
+    (Sem.run 400 c01Script3 []).2 (eq_of_fst c01Script3_sem)
+
+/-- by evaluation, independently of the theorem -/
+example : (Vm.finish (Vm.run (Loader.load c01Code3) 2000 (Vm.init []))).trace =
+    .flush :: (Sem.run 400 c01Script3 []).2.vm.trace := by decide +kernel
+
+/-- the values: 3 2, then `i` as the `break` left it; `y` assigned although no pass is made;
+100, 100 + 65536/2, and `h` one increment past its last value -/
+example : (Sem.run 400 c01Script3 []).2.vm.trace.reverse =
+    [.out (.int 3), .out (.int 2), .out (.int 1), .out (.int 7),
+     .out (.int 100), .out (.num 32868), .out (.num 65636)] := by decide +kernel
 
 /-! ### why the fragment excludes reading `result` and `setReg unitMode`: on these scripts the
 source semantics and the machine (both of the MODEL) disagree
